@@ -52,6 +52,8 @@ class Builder(object):
                 if v['alt'] == 'false':
                     return False
                 return self.conv(v.get('val'))
+            if 'float' in v:
+                return 1.0
             if 'opaque' in v:
                 return hint
             return {k: self.conv(x) for k, x in v.items()}
@@ -211,6 +213,16 @@ def replay(data):
         v = getattr(hdl, fn, None)
         if isinstance(v, int):
             E.GLib.SOURCES[v] = dict(kind='timeout', func=cb, args=(), delay=1000, due=1000, extra=None)
+    extra_ns = {'contact': contact, 'messages': messages}
+    probes = data.get('probes') or {}
+    if 'san_ip' in probes and 'ip_ref' in probes:
+        import c15_cert
+        try:
+            n2, ns2 = c15_cert.setup(hdl, probes, E.FakeSocket)
+            notes.extend(n2)
+            extra_ns.update(ns2)
+        except Exception as err:  # noqa
+            notes.append('C15 scenario not built: %r' % (err,))
     # arguments
     args = {}
     case = data.get('case') or {}
@@ -234,6 +246,23 @@ def replay(data):
             meth = klass.__dict__[fname]
     if meth is None:
         meth = getattr(type(hdl), fname)
+    # the model must satisfy the unit's pre-state assumptions (requires, class invariants): a candidate
+    # model comes from the quantifier-free hypotheses only and may describe an unreachable state
+    spec = data.get('spec') or {}
+    specfuncs = {k: (v[0], v[1]) for k, v in (spec.get('specfuncs') or {}).items()}
+    ev0 = Evaluator(specfuncs, spec.get('consts') or {}, extra=extra_ns)
+    g0 = dict(ghost0)
+    g0['trace'] = [Rec(x) if isinstance(x, dict) else x for x in (ghost0.get('trace') or [])]
+    g0['signals'] = [Rec(x) if isinstance(x, dict) else x for x in (ghost0.get('signals') or [])]
+    ns0 = ev0.namespace({'self': View(hdl)}, Ghost(g0))
+    ns0.update(args)
+    skipped = 0
+    for lab, src in (data.get('hypotheses') or []):
+        try:
+            if not ev0.eval_src(src, ns0):
+                return False, 'the solver model violates the assumed %s on the injected pre-state (spurious model)' % lab
+        except CannotEvaluate:
+            skipped += 1
     exc = None
     result = None
     try:
@@ -249,6 +278,10 @@ def replay(data):
     declared = data.get('raises_declared') or []
     if kind == 'no_exception':
         if exc is not None and type(exc).__name__ not in [d.split('.')[-1] for d in declared]:
+            want = str(((data.get('solver') or {}).get('model') or {}).get('exception') or '').split('.')[-1]
+            if want and want != type(exc).__name__:
+                # not the exception of the solver's path: an artefact of the injected state, not a replay
+                return False, observed + ' -- but the solver model predicts %s: not the same failure' % want
             return True, observed + ' -- an undeclared exception escapes the handler'
         return False, observed
     # clause evaluation
@@ -265,7 +298,7 @@ def replay(data):
         return False, observed + ' -- no clause text to evaluate'
     spec = data.get('spec') or {}
     specfuncs = {k: (v[0], v[1]) for k, v in (spec.get('specfuncs') or {}).items()}
-    ev = Evaluator(specfuncs, spec.get('consts') or {}, extra={'contact': contact, 'messages': messages})
+    ev = Evaluator(specfuncs, spec.get('consts') or {}, extra=extra_ns)
     gold = dict(ghost0)
     gnew = dict(ghost0)
     gold_trace = [Rec(x) if isinstance(x, dict) else x for x in (ghost0.get('trace') or [])]
